@@ -31,6 +31,8 @@ def main():
             verdict = 'not caught' + (': ' + m['missed_reason'] if m.get('missed_reason') else '')
         else:
             verdict = '(checks not run yet)'
+        if det.get('no_longer_applies_at'):
+            verdict += f"<br>(last run at {det.get('repo_head')}; the patch no longer applies at {det['no_longer_applies_at']}: a later fix rewrote the lines it edits)"
         summ = (m.get('summary') or '').replace('|', '/').replace('\n', ' ')
         if len(summ) > 260:
             summ = summ[:257] + '...'
